@@ -151,7 +151,7 @@ E2E = (" Above the leaf: (a) composite level - the real BasicStructure/Request/R
        "keys, multiplexer, TABLE-KEY/TABLE-STRUCT, DTC DOPs, environment data descriptions) are "
        "built by the real constructors and resolved by the library's own _resolve_odxlinks/_resolve_snrefs, then "
        "run through the real Request/Response.encode and decode with values and message bytes symbolic; these are "
-       "labelled B (56 concrete descriptions, field/byte-field lengths bounded; values symbolic) and are reported as "
+       "labelled B (57 concrete descriptions, field/byte-field lengths bounded; values symbolic) and are reported as "
        "bounded checks, never counted as proved; for 19 descriptions the PDU is compared with an independently "
        "written wire image (17 descriptions), and decoded values must be backed by the bytes of the message.")
 for k in ("C01","C02","C03","C04","C05","C08"):
